@@ -138,22 +138,25 @@ class Walk:
         for i, v in args.items():
             it.params[i] = v
         node = g.nodes[g.entry]
+        passed = [None]        # the index as it stood when the last refusal test was passed
+
+        def index():
+            return passed[0] if passed[0] is not None else it.params.get(1)
         for _ in range(100):
             if node['kind'] == 'term':
                 return ('refuse', node['why'][1]) if node['why'][0] == 'throw' else ('unknown', 'term')
             if node['kind'] in ('ret', 'exit'):
-                return ('accept', it.params.get(1))
+                return ('accept', index())
             if node['kind'] == 'cond':
                 try:
                     v = it.ev(node['expr'])
                 except cint.NoEval:
-                    return ('accept', it.params.get(1))
-                tb = succ_of(node, True)
-                nxt = g.nodes[succ_of(node, bool(v))]
-                if tb is not None and not throw_only(g, tb) and not (succ_of(node, False) is not None and throw_only(g, succ_of(node, False))):
-                    # first non-bounds decision (choice of walking direction): the index is final here
-                    return ('accept', it.params.get(1))
-                node = nxt
+                    return ('accept', index())
+                tb, fb = succ_of(node, True), succ_of(node, False)
+                guard = (tb is not None and throw_only(g, tb)) or (fb is not None and throw_only(g, fb))
+                node = g.nodes[succ_of(node, bool(v))]
+                if guard and node['kind'] != 'term':
+                    passed[0] = it.params.get(1)
                 continue
             if node['kind'] == 'stmt' and node['expr'] is not None:
                 writes_idx = any(ev['t'] == 'write' and ir.top_nocast(ev['lhs'])[0] == 'param' and ir.top_nocast(ev['lhs'])[2] == 1
@@ -161,10 +164,12 @@ class Walk:
                 try:
                     it.ev(node['expr'])
                 except cint.NoEval:
-                    if writes_idx:
+                    if writes_idx and passed[0] is None:
                         return ('unknown', 'index arithmetic not evaluable')
+                    # the walk over the links starts: the index is what passed the refusal test
+                    return ('accept', index())
             if not node['succ']:
-                return ('accept', it.params.get(1))
+                return ('accept', index())
             node = g.nodes[node['succ'][0][0]]
         return ('unknown', 'no end')
 
